@@ -12,7 +12,7 @@ PROPS = {
           'codec, the parsers (with truncation / length-perturbation / form / byte mutations) and the file/socket stream readers; plus '
           'exhaustive two-byte prefixes. Non-trivial = nesting depth >= 2, or a tag/length at a header-form or 16-bit boundary, or a tree '
           'exceeding the length field, or a mutated encoding; distinct = distinct (codec, shape string, content length, depth, mutation).',
-  'quick': {'cases': 6400, 'max_size': 200, 'exhaustive': True, 'wall_s': 600},
+  'quick': {'cases': 25600, 'max_size': 200, 'exhaustive': True, 'wall_s': 600},
   'thorough': {'cases': 128000, 'max_size': 400, 'exhaustive': True, 'wall_s': 1800, 'fuzz': {'runs': 150000, 'max_len': 600}},
   'sim': ['simsock'],
   'essential_classes': ['mode:edit-element', 'edit-element:child-with-long-header-on-short-value', 'edit-element:emptied', 'edit-element:nested-child-edited-while-attached', 'mode:edit', 'edit:element-emptied', 'stream:many-segments', 'tree:overflow-tree', 'element:overflow-tree', 'tree:buf-too-small', 'element:buf-too-small', 'parse:nested-mistiled', 'stream:complete', 'stream:truncated'],
@@ -27,7 +27,7 @@ PROPS = {
   'rule': 'rapidcheck choice strings -> (publication time with boundary bias 0,1,2^32-1,2^32,2^63,2^64-1; algorithm among all registered ids; digest '
           'bytes) -> reference string; each case checks the full corruption neighbourhood of that string (counts in sanity_counters). Every case is '
           'non-trivial (it contains corruptions); distinct = distinct (algorithm, time, string prefix).',
-  'quick': {'cases': 960, 'max_size': 100, 'wall_s': 600},
+  'quick': {'cases': 3840, 'max_size': 100, 'wall_s': 600},
   'thorough': {'cases': 16000, 'max_size': 100, 'wall_s': 1800},
   'essential_classes': ['candidates:substitution', 'candidates:transposition', 'candidates:byte-value', 'candidates:algorithm-byte', 'encode:ok'],
   'assumptions': ['reference base-32 / CRC-32 / algorithm table correct (known-answer self-test)'],
@@ -42,7 +42,7 @@ PROPS = {
           '(c) chain lists, (d) calendar chains with algorithm switches, (e) calendar time for shape(t,p) and its flip/drop/add/swap perturbations with 32/64-bit '
           'times; exhaustive: every direction string up to length L x every publication time up to P. Non-trivial = >= 2 links or a boundary value '
           '(correction > 255, start level > 200), calendar strings containing both directions; distinct = distinct descriptor (mode, shape string, levels, times).',
-  'quick': {'cases': 6400, 'max_size': 200, 'exhaustive': True, 'wall_s': 900},
+  'quick': {'cases': 25600, 'max_size': 200, 'exhaustive': True, 'wall_s': 900},
   'thorough': {'cases': 200000, 'max_size': 300, 'exhaustive': True, 'wall_s': 3000},
   'essential_classes': ['setters:valid', 'setters:invalid:correction > 255', 'setters:invalid:level > 255', 'parsed:with-refused-level', 'parsed:has-metadata', 'parsed:has-legacy-id',
                         'cal:valid-with-alg-switch', 'caltime:valid', 'caltime:impossible', 'shape:too-long', 'list:valid', 'caltime:publication-time>=2^62', 'parsed:metadata-read-through-getters'],
@@ -91,7 +91,7 @@ PROPS = {
   'rule': 'rapidcheck choice strings -> (algorithm, 1..400 leaves each hash|metadata with level from six level distributions incl. 240..255, max level unset/tight/random); '
           'exhaustive: n = 1..N uniform-level hash leaves x 6 level values x {unset, tight max level}. Non-trivial = >= 3 leaves with non-uniform levels, or a refused leaf '
           'followed by more leaves; distinct = distinct (algorithm, n, level mode, max level, metadata count, sample levels).',
-  'quick': {'cases': 6400, 'max_size': 300, 'exhaustive': True, 'wall_s': 900},
+  'quick': {'cases': 12800, 'max_size': 300, 'exhaustive': True, 'wall_s': 900},
   'thorough': {'cases': 128000, 'max_size': 400, 'exhaustive': True, 'wall_s': 3000},
   'sim': ['simsock', 'fakecurl', 'simclock'],
   'essential_classes': ['all-accepted', 'refusal-then-more-leaves', 'has-metadata-leaves', 'max-level-set', 'proofs-checked', 'block-signer:signatures-checked', 'block-signer:reset-compared', 'block-signer:masking+metadata', 'block-signer:high-levels', 'block-signer:leaf-refused', 'block-signer:refusal-inertness-compared'],
@@ -121,7 +121,7 @@ PROPS = {
   'level_note': 'Trusted: ref/sigmodel.cpp builder. For the anchored policies without an anchor only the negative direction is decided here (document rules run first); their positive direction belongs to C04.',
   'rule': 'rapidcheck choice strings -> (signature, hash deviation class, bit, level class, policy, API variant); exhaustive: every bit of the hash of 3 (5) signatures x 3 API variants. '
           'Non-trivial = a hash deviation or a non-zero level; distinct = distinct (API, policy, deviation, bit bucket, level, L0, algorithm).',
-  'quick': {'cases': 12800, 'max_size': 200, 'exhaustive': True, 'wall_s': 900},
+  'quick': {'cases': 25600, 'max_size': 200, 'exhaustive': True, 'wall_s': 900},
   'thorough': {'cases': 256000, 'max_size': 300, 'exhaustive': True, 'wall_s': 3000},
   'essential_classes': ['deviation:bit-flip', 'deviation:other-alg-same-digest', 'deviation:other-alg', 'deviation:level', 'deviation:level>255', 'deviation:combined', 'no-deviation', 'api:verifyWithPolicy+context', 'api:verifyDataHash', 'api:verifyDocument', 'policy:general', 'policy:key', 'ctx-split:level-in-context', 'ctx-split:hash-in-context'],
   'assumptions': ['reference builder produces consistent signatures (checked per case with the reference evaluation)'],
@@ -134,7 +134,7 @@ PROPS = {
   'level_note': 'Trusted: ref/sigmodel.cpp, ref/pdu.cpp, the transport simulations in sim/ (documented POSIX / libcurl behaviour). Block-signer signing is covered under C16.',
   'rule': 'rapidcheck choice strings -> (transport, API, PDU version, MAC algorithm, login/key, document hash incl. SHA-1 and unsupported algorithms, level, server deviation, status code, chunking). '
           'Non-trivial = a deviation, or an honest reply with >= 2 chains; distinct = distinct (transport, API, version, deviation, level, algorithm).',
-  'quick': {'cases': 6400, 'max_size': 300, 'wall_s': 900},
+  'quick': {'cases': 32000, 'max_size': 300, 'wall_s': 900},
   'thorough': {'cases': 128000, 'max_size': 400, 'wall_s': 3000},
   'sim': ['simsock', 'fakecurl', 'simclock'],
   'essential_classes': ['credentials-in-uri:key-with-colon', 'reply:request-echoed-around-unauthenticated-response', 'dev:no-request-id', 'readd:same-handle-added-again', 'api:block-signer', 'reply:chains-not-lowest-first', 'dev:honest', 'dev:foreign-id', 'dev:other-hash', 'dev:status', 'dev:error-pdu', 'dev:error-pdu-status0', 'dev:bad-mac', 'dev:no-mac', 'dev:inconsistent-chains', 'dev:other-pdu-version', 'outcome:success', 'outcome:error',
@@ -149,7 +149,7 @@ PROPS = {
   'level_note': 'Trusted: ref/hash.cpp HMAC (RFC 4231 / RFC 2202 known answers in setup), ref/pdu.cpp. The high-availability delivery path is exercised under C15.',
   'rule': 'rapidcheck choice strings -> request cases (API, version, algorithm incl. untrusted, key length in {1,5,20,63,64,65,127,128,129,200}) and response cases (kind, version, MAC algorithm, key, delivery path, one of 10 alterations); '
           'exhaustive: every bit of 6 responses x delivery paths. Every case is non-trivial (each carries a MAC decision); distinct = distinct (kind, version, algorithm, key length, path, alteration).',
-  'quick': {'cases': 4800, 'max_size': 200, 'exhaustive': True, 'wall_s': 900},
+  'quick': {'cases': 19200, 'max_size': 200, 'exhaustive': True, 'wall_s': 900},
   'thorough': {'cases': 96000, 'max_size': 300, 'exhaustive': True, 'wall_s': 3000},
   'sim': ['simsock', 'fakecurl', 'simclock'],
   'essential_classes': ['request:enclose', 'request:untrusted-alg', 'unmodified', 'altered:rejected', 'path:parse+verify', 'path:blocking-client', 'path:async-service', 'kind:aggregation', 'kind:extension', 'kind:aggr-config', 'kind:ext-config', 'pdu:v1', 'pdu:v2', 'keylen:64', 'keylen:128', 'keylen:129'],
@@ -163,7 +163,7 @@ PROPS = {
   'level_note': 'Trusted: ref/chain.cpp coherent calendar (prefix property of right links brute-force checked), ref/sigmodel.cpp, ref/pdu.cpp, sim/. KSI_extendSignature (nearest publication from the publications file) is exercised with the publications-file environment of C04/C18.',
   'rule': 'rapidcheck choice strings -> (source kind, API, transport, PDU version, target class, reply deviation, status, supplied publication record right/wrong). Non-trivial = a reply deviation or a source that already has a calendar chain; '
           'distinct = distinct (API, transport, version, source kind, target, reply class).',
-  'quick': {'cases': 6400, 'max_size': 300, 'wall_s': 900},
+  'quick': {'cases': 32000, 'max_size': 300, 'wall_s': 900},
   'thorough': {'cases': 128000, 'max_size': 400, 'wall_s': 3000},
   'sim': ['simsock', 'fakecurl', 'simclock'],
   'essential_classes': ['reply:request-echoed-around-forged-response', 'reply:correct', 'reply:wrong-id', 'reply:no-status-wrong-id', 'reply:right-link-altered', 'altered:shared-right-link', 'altered:last-shared-right-link', 'reply:other-input-hash', 'reply:shape-flip', 'reply:other-aggr-time', 'api:async', 'api:extend(pubRec)', 'api:extendTo',
@@ -178,7 +178,7 @@ PROPS = {
   'level_note': 'Trusted: sim/simsock.cpp, sim/fakecurl.cpp (record exactly what the SDK passes to getaddrinfo / libcurl), ref/pdu.cpp.',
   'rule': 'rapidcheck choice strings -> (scheme x case pattern, embedded credentials, host form, port class, path, query, fragment, explicit credential subset, service kind). Non-trivial = embedded credentials or a non-lower-case scheme; '
           'distinct = distinct (service, URI, explicit subset).',
-  'quick': {'cases': 8000, 'max_size': 120, 'wall_s': 600},
+  'quick': {'cases': 48000, 'max_size': 120, 'wall_s': 600},
   'thorough': {'cases': 160000, 'max_size': 150, 'wall_s': 2400},
   'sim': ['simsock', 'fakecurl', 'simclock'],
   'essential_classes': ['fragment:with-question-mark', 'path:percent-encoded', 'scheme:ksi', 'scheme:ksi+http', 'scheme:ksi+https', 'scheme:ksi+tcp', 'scheme:file', 'scheme:http', 'scheme:x-unknown', 'embedded-credentials', 'mixed-case-scheme', 'host:ipv6', 'port:boundary', 'async-refusal',
@@ -194,7 +194,7 @@ PROPS = {
   'level_note': 'Trusted: sim/simsock.cpp POSIX model (documented in simnet.hpp), the request/response model in harness/C13.cpp, ref/pdu.cpp. Pushed configurations are routed to the callback so that they do not add handles. The HTTP back-end is exercised by C07/C06/C20, not here.',
   'rule': 'rapidcheck choice strings -> (cache size 1..64, per-round limit, send/receive/connect timeouts incl. 0, 0..300 operations); exhaustive: all operation strings of length <= L containing an add. '
           'Non-trivial = >= 2 requests and a fault or a reply that is not the plain valid one; distinct = distinct (configuration, operation string).',
-  'quick': {'cases': 4800, 'max_size': 300, 'exhaustive': True, 'wall_s': 1200},
+  'quick': {'cases': 19200, 'max_size': 300, 'exhaustive': True, 'wall_s': 1200},
   'thorough': {'cases': 96000, 'max_size': 400, 'exhaustive': True, 'wall_s': 3400},
   'sim': ['simsock', 'fakecurl', 'simclock'],
   'essential_classes': ['op:resize-cache', 'resize-cache:while-full', 'http:response-body-with-several-pdus', 'backend:http', 'http:transfer-faults', 'http:request-after-failed-transfer', 'http:cache-full', 'add:accepted', 'add:cache-full', 'returned:response', 'returned:error', 'op:stale', 'op:early-reply', 'early-reply-queued', 'stale-reply-queued', 'op:close', 'op:reset', 'op:refuse-next', 'op:advance', 'op:block-send', 'closed-inside-a-pdu', 'push-config-delivered', 'cache-size:5+'],
@@ -208,7 +208,7 @@ PROPS = {
   'level_note': 'Trusted: sim/simsock.cpp (POSIX non-blocking semantics as documented), ref/pdu.cpp. ASan guards the reassembly buffers.',
   'rule': 'rapidcheck choice strings -> (number and sizes / kinds of replies, recv chunk plan, send plan | fault kind and offset + late request | blocking client plan); exhaustive: each split point (a, or a+b) of 6 streams. '
           'Non-trivial = >= 3 chunks, a split inside a TLV header, or a fault strictly inside a PDU; distinct = distinct (mode, sizes, plan summary).',
-  'quick': {'cases': 3200, 'max_size': 300, 'exhaustive': True, 'wall_s': 1200},
+  'quick': {'cases': 12800, 'max_size': 300, 'exhaustive': True, 'wall_s': 1200},
   'thorough': {'cases': 64000, 'max_size': 400, 'exhaustive': True, 'wall_s': 3400},
   'sim': ['simsock', 'fakecurl', 'simclock'],
   'essential_classes': ['connect:never-completes', 'connect:refused(IN|OUT|ERR|HUP)', 'connect:refused(ERR|HUP)', 'connect-timeout:non-zero', 'mode:handles-added-again', 'mode:random-chunks', 'mode:close-at-offset', 'mode:reset-at-offset', 'mode:blocking-chunks', 'mode:blocking-truncated', 'mode:cut-inside-request-stream', 'eintr-injected', 'split-inside-header', 'request-on-fresh-connection', 'request-cut-short-by-connection-end', 'baseline-with-completed-responses'],
@@ -221,7 +221,7 @@ PROPS = {
   'level_note': 'Trusted: sim/ (sockets, clock), ref/pdu.cpp, the model in harness/C15.cpp. Boundary values of the ranges themselves are not generated (the statement says boundary-distant).',
   'rule': 'exhaustive: (6 outcomes)^k x arrival orders for k = 1..3; rapidcheck: configuration sets (3 endpoints x 5 fields x {absent, 4 in-range values, out-of-range values}) x all permutations, and the cache-full history. '
           'Non-trivial = >= 2 endpoints with different outcomes, or a configuration set containing an out-of-range value; distinct = distinct (outcome vector, order) / configuration set.',
-  'quick': {'cases': 6400, 'max_size': 150, 'exhaustive': True, 'wall_s': 1200},
+  'quick': {'cases': 12800, 'max_size': 150, 'exhaustive': True, 'wall_s': 1200},
   'thorough': {'cases': 32000, 'max_size': 200, 'exhaustive': True, 'wall_s': 3400},
   'sim': ['simsock', 'fakecurl', 'simclock'],
   'essential_classes': ['single:request-with-configuration-part', 'single:extending-service', 'config:unsolicited-push', 'history:earlier-request-dropped-in-flight', 'single:response', 'single:all-failed', 'error-notice-seen', 'two-requests:cache-full-on-one-endpoint', 'config:extending', 'config:signing', 'config:with-out-of-range-value', 'endpoints:3'],
@@ -233,7 +233,7 @@ PROPS = {
                 '(status, result, error code) as the same verification on a fresh context with a freshly parsed copy. Each history is executed with the default data-hash cache (behavioural divergence shows) and with cache size 0 (ASan sees freed hashes).',
   'level_note': 'Trusted: ref/sigmodel.cpp builder, the reference extender (stateless), ASan. The comparison oracle is the SDK itself on a fresh context (differential), by design of the property.',
   'rule': 'rapidcheck choice strings -> a pool of <= 4 signatures and a sequence of operations; non-trivial = >= 2 verifications with different outcomes or a derive operation; distinct = distinct operation/outcome trace (first 400 characters).',
-  'quick': {'cases': 3200, 'max_size': 300, 'wall_s': 900},
+  'quick': {'cases': 6400, 'max_size': 300, 'wall_s': 900},
   'thorough': {'cases': 64000, 'max_size': 400, 'wall_s': 3000, 'fuzz': {'runs': 40000, 'max_len': 1500, 'jobs': 16}},
   'sim': ['simsock', 'fakecurl', 'simclock'],
   'essential_classes': ['log:debug-with-failing-logger', 'derive:extend-to-borrowed-record', 'verify:with-user-publications-file', 'shared-verification-context', 'pool:unknown-extension-elements', 'pool:consistent', 'pool:inconsistent', 'pool:legacy', 'history:verifies-with-different-outcomes', 'history:with-derive-operation', 'derive:extended', 'derive:root-level', 'derive:prepended', 'both-cache-configurations'],
